@@ -93,7 +93,7 @@ impl Property for C37 {
         // sign once per delivery mode with an honest time-stamp
         let sign = |ocsp: Option<Vec<u8>>| -> Result<Vec<u8>, String> {
             let log = Arc::new(Mutex::new(TsaLog::default()));
-            let signer = PkiSigner { inner: pki::ee_signer("ee_now")?, tsa: Tsa::Honest, ocsp, work: work.clone(), log };
+            let signer = PkiSigner { inner: pki::ee_signer("ee_now")?, tsa: Tsa::Honest, ocsp, work: work.clone(), log, tsa_digest: "sha256" };
             let ctx = Arc::new(sdk::make_context(&settings(false)));
             let mut b = Builder::from_shared_context(&ctx).with_definition(sdk::simple_definition("c37")).map_err(|e| err_kind(&e))?;
             let mut d = std::io::Cursor::new(Vec::new());
